@@ -1,5 +1,6 @@
 import CoclsModel.Proto
 import CoclsModel.Queue
+import Drivers.SchedCommon
 /-!
 Driver for C09: runs the `queue<T>` model (kind `q`) or the `queue<void>` model (kind `vq`) on the harness input
 (same grammar as harness/h_queue.cpp, `run_qcase`).
@@ -9,9 +10,12 @@ up to `n` times, re-issuing `pop()` the moment its previous pop was resolved wit
 i.e. before the operation that woke it returns) and stopping at the first exception.  The sequential harness has no
 second thread, so every in-flight resolution is performed right after the lock region that decided it.
 
-Kinds `sq` / `svq` (harness `run_sqcase`): the harness parks an operation after a lock region that moved a promise
-out of `_awaiters`; the resolution is performed when the input says `deliver k` (= `Op.deliver k` of the model).
-`destroy` / `end` first perform every outstanding resolution (the queue must not die under a running call).
+`pushthrow` is a `push` whose item constructor throws (kind `q` only; precondition: no pop waiting, else `n/a`).
+
+Kinds `sq` / `svq` (harness `run_sched`): scheduled interleavings, see `Drivers/SchedCommon.lean`; this file supplies
+the model side (`schedModel`): one lock region = one model step, `deliver` of a paused call = `Op.deliver`.  The
+harness numbers the pops in the order in which their lines are read, the model in the order of their lock regions;
+`popMap` translates.
 -/
 open Cocls Cocls.Proto Cocls.Q
 
@@ -36,7 +40,7 @@ structure DState (σ : Type) where
   st : σ
   loops : List (Nat × Nat) := []
   nextCons : Nat := 1
-  sched : Bool := false     -- `sq` / `svq`: resolutions are performed by explicit `deliver k` lines
+  void : Bool := false      -- `vq`: there is no item constructor that could throw
 
 /-- an event to print: `(pop id, 0 = issued and parked | 1 = resolved, text)` -/
 abbrev PEv := Nat × Nat × String
@@ -86,7 +90,7 @@ def doOp {σ} (m : Mach σ) (d : DState σ) (op : Op) : DState σ × Res × List
   let n0 := (m.completed d.st).length
   let s0 := if op == Op.destroy then flush m d.st ((m.inflight d.st).length + 1) else d.st
   let (s1, r) := m.step s0 op
-  let s2 := if d.sched then s1 else flush m s1 ((m.inflight s1).length + 1)
+  let s2 := flush m s1 ((m.inflight s1).length + 1)
   let newEvs := (m.completed s2).drop n0
   let own : Option Nat := match r with
     | Res.pop id (some _) => some id
@@ -99,33 +103,26 @@ def parseOp (ws : List String) : Option Op :=
   match ws with
   | ["push", v] => v.toNat?.map (Op.push 0)
   | ["push"] => some (Op.push 0 0)
+  | ["pushthrow"] => some Op.pushthrow
   | ["pop"] => some (Op.pop 0)
   | ["upop", c] => c.toNat?.map Op.upop
   | ["size"] => some Op.size
   | ["empty"] => some Op.empty
   | ["destroy"] => some Op.destroy
-  | ["deliver", k] => k.toNat?.map Op.deliver
   | _ => none
 
-/-- head of a `deliver k` line: which call returns now, with which result -/
-def deliverHead {σ} (m : Mach σ) (s : σ) (k : Nat) : String :=
-  match (m.inflight s)[k]? with
-  | none => "deliver none"
-  | some e => match e.out with
-    | Out.exc _ => "deliver upop 1"
-    | _ => "deliver push woke=1"
-
-def headOf (sched : Bool) (op : Op) (r : Res) : String :=
+def headOf (void : Bool) (op : Op) (r : Res) : String :=
   match r with
-  | Res.push _ woke => if sched && woke then "push paused" else "push woke=" ++ boolStr woke
+  | Res.push _ woke => "push woke=" ++ boolStr woke
   | Res.pop id (some o) => s!"pop#{id} {outStr o}"
   | Res.pop id none => s!"pop#{id} pending"
   | Res.flag b => (match op with
-      | Op.upop _ => if sched && b then "upop paused" else "upop " ++ boolStr b
+      | Op.upop _ => "upop " ++ boolStr b
       | _ => "empty " ++ boolStr b)
   | Res.num n => s!"size {n}"
   | Res.unit => "destroy"
-  | Res.bad => "bad-op"
+  | Res.threw => if void then "pushthrow n/a" else "pushthrow threw"
+  | Res.bad => if op == Op.pushthrow then "pushthrow n/a" else "bad-op"
 
 partial def caseLoop {σ} (m : Mach σ) (lines : Array String) (i : Nat) (d : DState σ) : IO Nat := do
   if h : i < lines.size then
@@ -138,7 +135,7 @@ partial def caseLoop {σ} (m : Mach σ) (lines : Array String) (i : Nat) (d : DS
         return i + 1
     | [kw, n] =>
         -- coroutine consumer / callback consumer: the same behaviour as far as the queue can tell
-        if (kw == "cons" || kw == "cbcons") && !d.sched then
+        if kw == "cons" || kw == "cbcons" then
           match n.toNat? with
           | some n =>
               let (d', evs) := consume m d d.nextCons [] n
@@ -149,20 +146,14 @@ partial def caseLoop {σ} (m : Mach σ) (lines : Array String) (i : Nat) (d : DS
           match parseOp ws with
           | some op =>
               let (d', r, evs) := doOp m d op
-              let head := match op with
-                | Op.deliver k => if d.sched then deliverHead m d.st k else "bad-op"
-                | _ => headOf d.sched op r
-              IO.println (finish head evs)
+              IO.println (finish (headOf d.void op r) evs)
               caseLoop m lines (i+1) d'
           | none => IO.println "bad-op"; caseLoop m lines (i+1) d
     | _ =>
         match parseOp ws with
         | some op =>
             let (d', r, evs) := doOp m d op
-            let head := match op with
-              | Op.deliver k => if d.sched then deliverHead m d.st k else "bad-op"
-              | _ => headOf d.sched op r
-            IO.println (finish head evs)
+            IO.println (finish (headOf d.void op r) evs)
             if op == Op.destroy then
               IO.println "end"
               -- the rest of the case is swallowed
@@ -173,6 +164,61 @@ partial def caseLoop {σ} (m : Mach σ) (lines : Array String) (i : Nat) (d : DS
         | none => IO.println "bad-op"; caseLoop m lines (i+1) d
   else return i
 
+/-! ### scheduled kinds -/
+
+structure SSt (σ : Type) where
+  st : σ
+  popMap : List (Nat × Nat) := []     -- model pop id ↦ harness pop id
+
+def SSt.hid {σ} (s : SSt σ) (mid : Nat) : Nat := (s.popMap.find? (·.1 == mid)).map (·.2) |>.getD mid
+
+def sevOf {σ} (s : SSt σ) (e : Ev) : Sched.SEv :=
+  (0, s.hid e.pop.id, s!"pop#{s.hid e.pop.id}={outStr e.out}")
+
+def schedOp (void : Bool) (ws : List String) : Option Op :=
+  match ws with
+  | ["push", v] => v.toNat?.map (Op.push 0)
+  | ["push"] => if void then some (Op.push 0 0) else none
+  | ["pushthrow"] => if void then none else some Op.pushthrow
+  | ["pop"] => some (Op.pop 0)
+  | ["upop", c] => c.toNat?.map Op.upop
+  | ["size"] => some Op.size
+  | ["empty"] => some Op.empty
+  | _ => none
+
+def schedModel {σ} (m : Mach σ) (waiting : σ → Bool) (void : Bool) : Sched.Model (SSt σ) where
+  issue ws ctr :=
+    match schedOp void ws with
+    | none => none
+    | some (Op.pop _) => some (s!"pop#{ctr.1}", ctr.1, (ctr.1 + 1, ctr.2))
+    | some _ => some (ws.headD "", 0, ctr)
+  apply s ws hid :=
+    match schedOp void ws with
+    | none => { st := s, status := "bad", paused := false, own := none }
+    | some op =>
+      let (s1, r) := m.step s.st op
+      let paused := (m.inflight s1).length > (m.inflight s.st).length
+      match r with
+      | Res.pop id o =>
+          let s' : SSt σ := { st := s1, popMap := (id, hid) :: s.popMap }
+          match o with
+          | some o => { st := s', status := outStr o, paused := paused, own := some (0, hid, s!"pop#{hid}={outStr o}") }
+          | none => { st := s', status := "pending", paused := paused, own := none }
+      | Res.push _ woke => { st := { s with st := s1 }, status := boolStr woke, paused := paused, own := none }
+      | Res.flag b => { st := { s with st := s1 }, status := boolStr b, paused := paused, own := none }
+      | Res.num n => { st := { s with st := s1 }, status := toString n, paused := paused, own := none }
+      | Res.threw => { st := { s with st := s1 }, status := "threw", paused := paused, own := none }
+      | _ => { st := { s with st := s1 }, status := "bad", paused := paused, own := none }
+  deliver s k :=
+    match (m.inflight s.st)[k]? with
+    | none => (s, [])
+    | some e => ({ s with st := (m.step s.st (Op.deliver k)).1 }, [sevOf s e])
+  destroy s :=
+    let n0 := (m.completed s.st).length
+    let s1 := (m.step s.st Op.destroy).1
+    ((m.completed s1).drop n0).map (sevOf s)
+  pre s _ := !waiting s.st
+
 partial def loop (lines : Array String) (i : Nat) : IO Unit := do
   if h : i < lines.size then
     match words lines[i] with
@@ -182,15 +228,15 @@ partial def loop (lines : Array String) (i : Nat) : IO Unit := do
         loop lines j
     | ("case" :: id :: "vq" :: _) =>
         IO.println s!"case {id}"
-        let j ← caseLoop machV lines (i+1) { st := VQ.init }
+        let j ← caseLoop machV lines (i+1) { st := VQ.init, void := true }
         loop lines j
     | ("case" :: id :: "sq" :: _) =>
         IO.println s!"case {id}"
-        let j ← caseLoop machQ lines (i+1) { st := Q.init, sched := true }
+        let j ← Sched.caseLoop (schedModel machQ (fun s => !s.waiters.isEmpty) false) lines (i+1) { st := { st := Q.init } }
         loop lines j
     | ("case" :: id :: "svq" :: _) =>
         IO.println s!"case {id}"
-        let j ← caseLoop machV lines (i+1) { st := VQ.init, sched := true }
+        let j ← Sched.caseLoop (schedModel machV (fun s => !s.waiters.isEmpty) true) lines (i+1) { st := { st := VQ.init } }
         loop lines j
     | _ => loop lines (i+1)
   else return ()
